@@ -1496,6 +1496,12 @@ class System:
     def getProcessedModule(self, modname: str) -> Optional[_ModuleT]:
         mod = self.allobjects.get(modname)
         if mod is None:
+            # The module, or a package above it, might have been moved (re-exported under another name) already.
+            try:
+                mod = self.find_object(modname)
+            except LookupError:
+                mod = None
+        if mod is None:
             return None
         if not isinstance(mod, Module):
             return None
